@@ -166,6 +166,36 @@ impl<T: NodeProcessor + Scope> NodeVisitor<T> for ScopeVisitor {
         scope.pop();
     }
 
+    fn visit_type_function(statement: &mut TypeFunctionStatement, scope: &mut T) {
+        scope.process_type_function(statement);
+
+        for r#type in statement
+            .iter_mut_parameters()
+            .filter_map(TypedIdentifier::mutate_type)
+        {
+            Self::visit_type(r#type, scope);
+        }
+
+        if let Some(variadic_type) = statement.mutate_variadic_type() {
+            Self::visit_function_variadic_type(variadic_type, scope);
+        }
+
+        if let Some(return_type) = statement.mutate_return_type() {
+            Self::visit_function_return_type(return_type, scope);
+        }
+
+        scope.push();
+        statement
+            .mutate_parameters()
+            .iter_mut()
+            .for_each(|parameter| scope.insert(parameter.mutate_name()));
+
+        scope.process_scope(statement.mutate_block(), None);
+
+        Self::visit_block(statement.mutate_block(), scope);
+        scope.pop();
+    }
+
     fn visit_generic_for(statement: &mut GenericForStatement, scope: &mut T) {
         scope.process_generic_for_statement(statement);
 
@@ -378,6 +408,38 @@ impl<T: NodeProcessor + NodePostProcessor + Scope> NodePostVisitor<T> for ScopeP
         scope.pop();
 
         scope.process_after_local_function_statement(statement);
+    }
+
+    fn visit_type_function_statement(statement: &mut TypeFunctionStatement, scope: &mut T) {
+        scope.process_type_function(statement);
+
+        for r#type in statement
+            .iter_mut_parameters()
+            .filter_map(TypedIdentifier::mutate_type)
+        {
+            Self::visit_type(r#type, scope);
+        }
+
+        if let Some(variadic_type) = statement.mutate_variadic_type() {
+            Self::visit_function_variadic_type(variadic_type, scope);
+        }
+
+        if let Some(return_type) = statement.mutate_return_type() {
+            Self::visit_function_return_type(return_type, scope);
+        }
+
+        scope.push();
+        statement
+            .mutate_parameters()
+            .iter_mut()
+            .for_each(|parameter| scope.insert(parameter.mutate_name()));
+
+        scope.process_scope(statement.mutate_block(), None);
+
+        Self::visit_block(statement.mutate_block(), scope);
+        scope.pop();
+
+        scope.process_after_type_function(statement);
     }
 
     fn visit_generic_for(statement: &mut GenericForStatement, scope: &mut T) {
